@@ -28,6 +28,9 @@ Verdict(e) ==
                          \cup (IF e.attr \in DOMAIN cons /\ cons[e.attr] = e.value THEN {}
                                ELSE {"C14.thread_read_not_constructed_value:" \o e.attr})
     [] e.ev = "write" -> {"C14.thread_write_to_model:" \o e.attr}
+    \* the outcome list several callers pass (SharedArgs.tla has no action that writes it): any mutating operation, even one
+    \* that leaves the same weak order or is undone before the call returns
+    [] e.ev = "argwrite" -> {"C14.thread_write_to_shared_argument:" \o e.value}
     [] e.ev = "end"   -> IF PcOf(e.th) = "running" THEN {} ELSE {"bind.end_outside_call"}
     [] OTHER -> {"bind.unknown_event"}
 
